@@ -43,9 +43,12 @@ def now():
 class Cue(SymObject):
     """`first`: index of the first node whose text is part of this cue text (ghost, for the layout clause)"""
 
-    def __init__(self, state, blank, stack, bad, ntrail, base, first=None):
+    def __init__(self, state, blank, stack, bad, ntrail, base, first=None, nlt=None):
         self.state, self.blank, self.stack, self.bad, self.ntrail, self.base = state, blank, stack, bad, ntrail, base
         self.first = now() if first is None else first
+        # `nlt`: line ends written after the trailing opening tags (a break right after opening tags stays with them:
+        # tags and line ends since the last text form the segment that `pending_tags` mirrors)
+        self.nlt = z3.IntVal(0) if nlt is None else nlt
 
     @staticmethod
     def of(x):
@@ -53,7 +56,9 @@ class Cue(SymObject):
             return x
         if isinstance(x, Pending):
             n = z3.Length(x.tags)
-            return Cue(z3.If(n > 0, INLINE, EMPTY), z3.BoolVal(False), x.tags, z3.BoolVal(False), n, z3.IntVal(EMPTY), now())
+            # (a cue text that starts with the pending segment: its tags, and - if a break came after them - "&nbsp;" lines)
+            return Cue(z3.If(x.nlines > 0, ATSTART, z3.If(n > 0, INLINE, EMPTY)), z3.BoolVal(False), x.tags, z3.BoolVal(False), n,
+                       z3.IntVal(EMPTY), now(), x.nlines)
         if isinstance(x, str):
             c = Cue(z3.IntVal(EMPTY), z3.BoolVal(False), E0, z3.BoolVal(False), z3.IntVal(0), z3.IntVal(EMPTY), now())
             return c if x == "" else c + x
@@ -67,9 +72,9 @@ class Cue(SymObject):
             return self._text()
         if isinstance(o, str):
             if o in OPEN:
-                base = z3.If(self.ntrail == 0, self.state, self.base)
+                base = z3.If(z3.And(self.ntrail == 0, self.nlt == 0), self.state, self.base)
                 return Cue(z3.IntVal(INLINE), self.blank, z3.Concat(self.stack, z3.Unit(z3.IntVal(OPEN[o]))), self.bad,
-                           self.ntrail + 1, base, self.first)
+                           self.ntrail + 1, base, self.first, self.nlt)
             if o in CLOSE:
                 n = z3.Length(self.stack)
                 match = z3.And(n > 0, self.stack[n - 1] == CLOSE[o])
@@ -83,6 +88,11 @@ class Cue(SymObject):
                     c = Cue(z3.IntVal(ATSTART), z3.Or(c.blank, c.state != INLINE), c.stack, c.bad, z3.IntVal(0), z3.IntVal(ATSTART), c.first)
                 else:
                     c = c._text()
+            if o.endswith("\n") and o.count("\n") == 1:
+                # a line end ("\n", "&nbsp;\n"): written right after opening tags it extends the pending segment
+                inseg = z3.Or(self.ntrail > 0, self.nlt > 0)
+                return Cue(c.state, c.blank, c.stack, c.bad, z3.If(inseg, self.ntrail, 0), z3.If(inseg, self.base, c.base), c.first,
+                           z3.If(inseg, self.nlt + 1, 0))
             return c
         if isinstance(o, (Cue, Pending)):
             raise Inapplicable("concatenation of two cue texts")
@@ -104,7 +114,7 @@ class Cue(SymObject):
         is exactly their text, which is registered as a proof obligation"""
         p = cur()
         if isinstance(k, slice) and k.start is None and k.step is None and isinstance(k.stop, NegLen) and isinstance(k.stop.owner, Pending):
-            if p.branch(z3.Length(k.stop.owner.tags) == 0):
+            if p.branch(z3.And(z3.Length(k.stop.owner.tags) == 0, k.stop.owner.nlines == 0)):
                 return Cue.of("")                      # s[:-0] == ''
             k = slice(None, CutPoint(self, k.stop.owner))
         if not (isinstance(k, slice) and k.start is None and k.step is None and isinstance(k.stop, CutPoint)
@@ -112,7 +122,7 @@ class Cue(SymObject):
             raise Inapplicable("cue text sliced other than s[:len(s) - len(pending_tags)]")
         pend = k.stop.pending
         n = z3.Length(self.stack)
-        cond = z3.And(z3.Length(pend.tags) == self.ntrail, self.ntrail >= 0, self.ntrail <= n,
+        cond = z3.And(z3.Length(pend.tags) == self.ntrail, self.ntrail >= 0, self.ntrail <= n, pend.nlines == self.nlt,
                       pend.tags == z3.SubSeq(self.stack, n - self.ntrail, self.ntrail))
         p.require_then_assume("pending_tags_are_the_trailing_opening_tags", cond, kind="side")
         return Cue(self.base, self.blank, z3.SubSeq(self.stack, 0, n - self.ntrail), self.bad, z3.IntVal(0), self.base, self.first)
@@ -149,8 +159,9 @@ class CutPoint:
 class Pending(SymObject):
     """pending_tags: the opening tags written since the last text or line break"""
 
-    def __init__(self, tags):
+    def __init__(self, tags, nlines=None):
         self.tags = tags
+        self.nlines = z3.IntVal(0) if nlines is None else nlines          # line ends written after the tags (see Cue.nlt)
 
     @staticmethod
     def of(x):
@@ -162,9 +173,11 @@ class Pending(SymObject):
 
     def __add__(self, o):
         if isinstance(o, str) and o in OPEN:
-            return Pending(z3.Concat(self.tags, z3.Unit(z3.IntVal(OPEN[o]))))
+            return Pending(z3.Concat(self.tags, z3.Unit(z3.IntVal(OPEN[o]))), self.nlines)
         if isinstance(o, str) and o == "":
             return self
+        if isinstance(o, str) and o.endswith("\n") and o.count("\n") == 1 and "<" not in o:
+            return Pending(self.tags, self.nlines + 1)            # a line end joins the segment
         if isinstance(o, Piece):
             return Cue.of(self) + o
         if isinstance(o, str):
@@ -180,7 +193,7 @@ class Pending(SymObject):
         return AbsLen(self)
 
     def __bool__(self):
-        return cur().branch(z3.Length(self.tags) > 0)
+        return cur().branch(z3.Or(z3.Length(self.tags) > 0, self.nlines > 0))
 
 
 class Piece(SymObject):
@@ -269,7 +282,8 @@ def cue_groups(c):
         MASKOF = z3.Function("style_mask", INT, INT)          # the i/u/b flags a style node's content resolves to
         FLAT, M, CUR = z3.Function("FLAT", INT, INT), z3.Function("OPENMASK", INT, INT), z3.Function("CURLAYOUT", INT, INT)
         HASTEXT = z3.Function("HASTEXT", INT, z3.BoolSort())         # a text node among the first k nodes
-        p.assume(z3.And(FLAT(0) == 0, CUR(0) == heap.NONE_REF, z3.Not(HASTEXT(0))))
+        AFTERSTART = z3.Function("AFTERSTART", INT, z3.BoolSort())   # node k comes right after a span start, or after line breaks that follow one
+        p.assume(z3.And(FLAT(0) == 0, CUR(0) == heap.NONE_REF, z3.Not(HASTEXT(0)), z3.Not(AFTERSTART(0))))
         node = lambda k: nodes.t[k]
         K = z3.Int("any_text_node")
         text_k = z3.And(0 <= K, K < n, TY[nodes.t[K]] == CaptionNode.TEXT)
@@ -283,6 +297,7 @@ def cue_groups(c):
                           M(k + 1) == z3.If(is_start(k), MASKOF(CONT[x]), M(k)),
                           CUR(k + 1) == z3.If(TY[x] == TEXT, LAY[x], CUR(k)),
                           HASTEXT(k + 1) == z3.Or(HASTEXT(k), TY[x] == TEXT),
+                          AFTERSTART(k + 1) == z3.Or(is_start(k), z3.And(TY[x] == CaptionNode.BREAK, AFTERSTART(k))),
                           MASKOF(CONT[x]) >= 0, MASKOF(CONT[x]) <= 7)
 
         def dom(k):
@@ -292,7 +307,7 @@ def cue_groups(c):
                 z3.Implies(is_start(k), FLAT(k) == 0),
                 z3.Implies(is_end(k), z3.And(FLAT(k) == 1, MASKOF(CONT[x]) == M(k))),
                 z3.Implies(z3.And(TY[x] == TEXT, FLAT(k) == 1),
-                           z3.Or(LAY[x] == CUR(k), z3.And(k > 0, is_start(k - 1))))))
+                           z3.Or(LAY[x] == CUR(k), AFTERSTART(k)))))
 
         def inv(S):
             i = S.i
@@ -314,14 +329,15 @@ def cue_groups(c):
                     ("text_node_leaves_the_line_non_empty", z3.Implies(prev_is_text, s.state == INLINE)),
                     ("states_in_range", z3.And(s.state >= 0, s.state <= 2, s.base >= 0, s.base <= 2, z3.Or(FLAT(i) == 0, FLAT(i) == 1))),
                     ("pending_tags_are_the_trailing_tags", z3.And(z3.Length(pend.tags) == s.ntrail, s.ntrail >= 0, s.ntrail <= ns,
+                                                                  pend.nlines == s.nlt, s.nlt >= 0, z3.Implies(s.nlt > 0, s.ntrail > 0),
                                                                   pend.tags == z3.SubSeq(s.stack, ns - s.ntrail, s.ntrail))),
                     ("current_layout_is_that_of_the_last_text", cl_t == CUR(i)),
                     ("has_text_is_a_text_node_so_far", (sym.zbool(S.local("has_text")) == HASTEXT(i)) if S.local("has_text") is not None else z3.BoolVal(True)),
                     ("text_before_the_trailing_tags_once_a_text_was_written", z3.Implies(HASTEXT(i), z3.And(s.base != EMPTY, s.state != EMPTY))),
                     ("open_tags_are_those_of_the_open_span", z3.And(z3.Not(s.bad), g_tags,
                                                                     s.stack == z3.If(FLAT(i) == 1, tags_of(M(i)), E0))),
-                    ("right_after_a_span_start_all_its_tags_are_trailing", z3.Implies(z3.And(i > 0, is_start(i - 1)), s.ntrail == ns)),
-                    ("base_is_the_state_without_trailing_tags", z3.Implies(s.ntrail == 0, s.base == s.state)),
+                    ("right_after_a_span_start_all_its_tags_are_trailing", z3.Implies(AFTERSTART(i), s.ntrail == ns)),
+                    ("base_is_the_state_without_trailing_tags", z3.Implies(z3.And(s.ntrail == 0, s.nlt == 0), s.base == s.state)),
                     # layout clause (C12), for an arbitrary text node K
                     ("open_cue_starts_at_a_node_seen", z3.And(s.first >= 0, s.first <= i)),
                     ("a_text_node_seen_sets_has_text", z3.Implies(z3.And(text_k, K < i), HASTEXT(i))),
@@ -331,16 +347,16 @@ def cue_groups(c):
 
         def fresh_cue(p_, v):
             return Cue(p_.fresh_int("state"), p_.fresh_bool("blank"), z3.Const(p_._name("stack"), SEQ), p_.fresh_bool("bad"),
-                       p_.fresh_int("ntrail"), p_.fresh_int("base"), p_.fresh_int("first"))
+                       p_.fresh_int("ntrail"), p_.fresh_int("base"), p_.fresh_int("first"), p_.fresh_int("nlt"))
         c.interp.loop_hooks[(q, 1)] = loop_rule(
             "nodes", inv, locals_={"s": ("custom", fresh_cue),
-                                   "pending_tags": ("custom", lambda p_, v: Pending(z3.Const(p_._name("pending"), SEQ))),
+                                   "pending_tags": ("custom", lambda p_, v: Pending(z3.Const(p_._name("pending"), SEQ), p_.fresh_int("pending_lines"))),
                                    "layout_groups": ("custom", lambda p_, v: Groups(p_.fresh_bool("lines_ok"), p_.fresh_bool("tags_ok"), p_.fresh_int("groups"),
                                                                                         p_.fresh_bool("k_in"), p_.fresh_bool("k_ok"))),
                                    "current_layout": ("custom", lambda p_, v: OptLayout(p_.fresh_int("layout"))),
                                    "has_text": ("bool", None),
                                    "resulting_style": ("skip", None), "styles": ("skip", None), "style": ("skip", None),
-                                   "tags": ("skip", None), "i": ("skip", None), "node": ("skip", None)})
+                                   "tags": ("skip", None), "i": ("skip", None), "node": ("skip", None), "line_end": ("skip", None)})
 
         def h_style(interp, fn, args, kw):
             content = args[1]
